@@ -219,7 +219,7 @@ def ident():
 
 
 def qualified_ident():
-    return _(r"\w+(\.\w+)?")
+    return _(r"\w+(\.\w+)*")
 
 
 def integer():
